@@ -40,13 +40,28 @@ func (q *c09QuickTester) PrintAndReset(*log.Logger) {}
 func (q *c09QuickTester) PrintStats(*log.Logger)    {}
 func (q *c09QuickTester) Reset()                    {}
 
+// c09ManyGenerations: the default subnets plus generations 2000..2399 (same subnets). Each stress
+// round uses a fresh window of them, so that registrations of a ClientConf generation the station
+// has never counted before keep arriving while others expire (per-generation bookkeeping is shared
+// state, too).
+func c09ManyGenerations() string {
+	var b strings.Builder
+	b.WriteString(vDefaultSubnets)
+	for g := 2000; g < 2400; g++ {
+		fmt.Fprintf(&b, "    [Networks.%d]\n        Generation = %d\n        [[Networks.%d.WeightedSubnets]]\n            Weight = 9\n            Subnets = [\"192.122.190.0/24\", \"2001:48a8:687f:1::/64\"]\n", g, g, g)
+	}
+	return b.String()
+}
+
+var c09StressRoundNo int64
+
 func TestVerif_C09_stress(t *testing.T) {
-	rec := vh.NewRec("C09", "stress", "real HandleRegUpdates (16 workers) fed ~40 distinct registrations x duplicate deliveries x conflicting coverts, concurrently with a sweeper over artificially aged entries, 4 connection handlers (lookup+activate) and (when enabled) configuration reloads, for a fixed wall-clock budget under the race detector; one evaluation = one round of ~400 messages; non-trivial = a round in which duplicates, sweeps and activations all happened; distinct by (seed, round)")
+	rec := vh.NewRec("C09", "stress", "real HandleRegUpdates (16 workers) fed ~40 distinct registrations (over 14 ClientConf generations, 12 of them never seen before in each round) x duplicate deliveries x conflicting coverts, concurrently with a sweeper over artificially aged entries, 4 connection handlers (lookup+activate) and (when enabled) configuration reloads, for a fixed wall-clock budget under the race detector; one evaluation = one round of ~400 messages; non-trivial = a round in which duplicates, sweeps and activations all happened; distinct by (seed, round)")
 	defer rec.Flush()
 	if vh.ReplayFile() != "" {
 		t.Skip("stress runs are not replayable (the schedule is the Go scheduler's)")
 	}
-	e := vNewEnv(t, nil, "")
+	e := vNewEnv(t, nil, c09ManyGenerations())
 	budget := time.Duration(vh.Pick(6, 90)) * time.Second
 	sidx, _ := vh.Shard()
 	rng := rand.New(rand.NewSource(vh.Seed()*1000 + int64(sidx)))
@@ -62,7 +77,7 @@ func TestVerif_C09_stressreload(t *testing.T) {
 	if vh.ReplayFile() != "" {
 		t.Skip("stress runs are not replayable (the schedule is the Go scheduler's)")
 	}
-	e := vNewEnv(t, nil, "")
+	e := vNewEnv(t, nil, c09ManyGenerations())
 	budget := time.Duration(vh.Pick(4, 45)) * time.Second
 	sidx, _ := vh.Shard()
 	rng := rand.New(rand.NewSource(vh.Seed()*1000 + 500 + int64(sidx)))
@@ -145,13 +160,22 @@ func c09StressRound(e *vEnv, rng *rand.Rand, withReload bool) (key, msg string, 
 		secret int
 		tt     pb.TransportType
 		covert string
+		gen    uint32
+	}
+	// this round's ClientConf generations: the usual one and a window of 12 never used before
+	roundNo := atomic.AddInt64(&c09StressRoundNo, 1)
+	gens := []uint32{957, 957, 957, 1}
+	for i := 0; i < 12; i++ {
+		gens = append(gens, uint32(2000+(int(roundNo)*12+i)%400))
 	}
 	var msgs [][]byte
 	var specs []spec
 	for i := 0; i < 400; i++ {
 		s := spec{secret: 200 + rng.Intn(40), tt: []pb.TransportType{pb.TransportType_Min, pb.TransportType_Prefix}[rng.Intn(2)],
 			covert: []string{"ok1", "ok1", "ok2", "bad", "malformed"}[rng.Intn(5)]}
-		w := vWrapper(vSecret(s.secret), s.tt, 0, c09Coverts[s.covert], true, rng.Intn(3) == 0, 4, 957, pb.RegistrationSource_API, net.ParseIP("198.51.100.7").To4())
+		// one secret always comes with the same generation (it is one client)
+		s.gen = gens[s.secret%len(gens)]
+		w := vWrapper(vSecret(s.secret), s.tt, 0, c09Coverts[s.covert], true, rng.Intn(3) == 0, 4, s.gen, pb.RegistrationSource_API, net.ParseIP("198.51.100.7").To4())
 		b, _ := proto.Marshal(w)
 		msgs = append(msgs, b)
 		specs = append(specs, s)
@@ -218,7 +242,7 @@ func c09StressRound(e *vEnv, rng *rand.Rand, withReload bool) (key, msg string, 
 				}
 				guard("handler", func() {
 					s := specs[lr.Intn(len(specs))]
-					w := vWrapper(vSecret(s.secret), s.tt, 0, c09Coverts["ok1"], true, false, 4, 957, pb.RegistrationSource_API, net.ParseIP("198.51.100.7").To4())
+					w := vWrapper(vSecret(s.secret), s.tt, 0, c09Coverts["ok1"], true, false, 4, s.gen, pb.RegistrationSource_API, net.ParseIP("198.51.100.7").To4())
 					reg, err := rm.NewRegistrationC2SWrapper(w, false)
 					if err != nil {
 						return
